@@ -21,6 +21,7 @@ def evTokens (evs : List Ev) : List String :=
   let seen := evs.filterMap (fun e => match e with | .req s => some s | _ => none)
   let rec resps : List Ev → Nat → Bool → List String
     | [], _, _ => []
+    | .unmodelled :: t, i, hd => resps t i hd
     | .continue100 :: t, i, hd => "100" :: "0" :: "-" :: resps t i hd
     | .req s :: t, i, _ => resps t (i + 1) (s.head.method == Gen.Str.strHead)
     | .resp st cl :: t, i, hd =>
@@ -49,15 +50,16 @@ def handle : Handler
     | .error .bad => pure { out := ["bad"], tag := "reqhead:bad" }
   | ["serve", flags, maxBody, endK, stream, _cuts], impl => do
     let s ← hx stream
-    let cfg : Cfg := { disableNorm := flags.contains 'n', disableKeepalive := flags.contains 'k', maxBody := (if maxBody.toNat! = 0 then 4194304 else maxBody.toNat!) }
+    let cfg : Cfg := { disableNorm := flags.contains 'n', disableKeepalive := flags.contains 'k', preParse := flags.contains 'p', maxBody := (if maxBody.toNat! = 0 then 4194304 else maxBody.toNat!) }
     let e := if endK == "stall" then End.stall else End.eof
     let evs := serve cfg e s
     let (ok, note) := match H1Spec.parseImpl impl with
       | none => (false, "impl-output-unparsable(panic/hang)")
       | some o =>
-        let (ok1, n1) := H1Spec.c01 s cfg.disableNorm cfg.disableKeepalive (fun n => n > cfg.maxBody) o
+        let (ok1, n1) := H1Spec.c01 s cfg.disableNorm cfg.preParse cfg.disableKeepalive (fun n => n > cfg.maxBody) o
         (ok1 && H1Spec.c03 o, (if ok1 then "" else "C01-view-mismatch ") ++ (if H1Spec.c03 o then "" else "C03-unclean-output ") ++ n1)
-    pure { out := evTokens evs, spec := ok, specNote := note,
+    let unm := evs.contains .unmodelled
+    pure { out := (if unm then impl else evTokens evs), spec := ok, specNote := note,
            tag := "serve:" ++ evTag evs ++ (if endK == "stall" then "S" else "E") ++ ":" ++ (if ok then note else "") }
   | _, _ => none
 
